@@ -4,7 +4,8 @@
     on generated (module, stubs) source pairs written as real files: direct merge_stubs in both argument orders,
     pkg/m.py + pkg/m.pyi under both os.walk orders, top-level m.py + m.pyi (or pkg/__init__.py[i]), pkg + pkg-stubs.
 direct evaluation: the merged live tree vs a declarative Python reading of the property (spec_scope), order independence,
-    no exception, aliases stay unresolved.
+    no exception, aliases stay unresolved (also aliases that could resolve), one consistent tree (parent/path/collection),
+    facade packages vs CPython's import of them and ast on the .pyi.
 """
 from __future__ import annotations
 
@@ -36,7 +37,12 @@ RULE = ("seeded random scope pairs: per name the runtime side is absent/attribut
         "stub parameters a random subset of the runtime ones plus extras, docstrings present/missing on each side independently; each pair is "
         "run through merge_stubs(a,b), merge_stubs(b,a), pkg/m.py+m.pyi in both os.walk orders, top-level module or package __init__ pair, and "
         "pkg + pkg-stubs with optional stub-only / runtime-only submodules; every third pair also as pkg/a_impl.py (runtime code) + pkg/m.py "
-        "re-exporting its objects + pkg/m.pyi (aliases to loaded targets) in both orders; plus a hand-written corpus of edge pairs. "
+        "re-exporting its objects + pkg/m.pyi (aliases to loaded targets) in both orders; every pair also through the producer API "
+        "(modules visited without parent=, attached with set_member in both orders; parent/path/modules_collection consistency of the merged "
+        "tree); every third pair with stubs that only IMPORT the names from a loaded sibling module (in-package pair in both orders, package "
+        "__init__ pair with in-package stubs or pkg-stubs; aliases must stay unresolved, imported objects unmerged); seeded pairs with "
+        "CPython-evaluable annotations as private _pkg + facade pkg (`from _pkg import *`) + stubs for pkg in both placements, judged against "
+        "CPython importing pkg in a subprocess and ast on the .pyi, after load and after resolve_aliases; plus a hand-written corpus of edge pairs. "
         "non-trivial = at least one name present on both sides; distinct by (py source, pyi source)")
 TRUSTED = ["abstraction: harness reads kind, docstring.value, [(p.name, str(p.annotation))], str(returns), overloads, str(annotation), runtime, "
            "imports and members (recursively, without touching Alias.target) of a live Griffe object into the model's `tree`"]
@@ -773,6 +779,291 @@ def observe_pair(ctx, s, o, depth):
                 ctx.observe("pending_overloads_hit", "absent" if om is None else (om[KIND] if om[0] == "obj" else "alias"))
 
 
+# ----------------------------------------------------------------------------------------------------------------------
+# stubs that merely IMPORT names whose targets are loaded (`from pkg.a_impl import convert` in the .pyi while the runtime
+# module defines or imports `convert` itself).  Imported stub objects are never merged and nothing gets resolved:
+# the merged module is the runtime module plus the stub-only imports (runtime=False, unresolved), the imported module
+# is untouched.  In-package m.py/m.pyi in both orders (also against the model), and the package's own __init__ pair
+# with the stubs inside the package or in pkg-stubs.
+# ----------------------------------------------------------------------------------------------------------------------
+def all_unresolved(obj, skip=()):
+    bad = []
+    for n, m in obj.members.items():
+        if n in skip:
+            continue
+        if m.is_alias:
+            if m.resolved:
+                bad.append(m.path + " -> " + m.target_path)
+        elif not m.is_module:
+            bad += all_unresolved(m)
+    return bad
+
+
+def run_stub_import_case(ctx, idx, py, pyi, use_model=True):
+    import griffe
+    d = ctx.scratch / f"imp{idx}"
+    try:
+        impl_src = pyi                                   # stub syntax is valid Python: the module the stubs import from
+        write(d / "in" / "a_impl.py", impl_src)
+        t_impl = abstract(visit_file(d / "in" / "a_impl.py", "a_impl"))
+        names = [n for n, t in t_impl[MEM] if t[0] == "obj"]
+        if not names:
+            return
+        write(d / "in" / "m0.py", py)
+        local = {n for n, _ in abstract(visit_file(d / "in" / "m0.py"))[MEM]}
+        shared = [n for n in names if n not in local][:2]          # imported the same way on both sides
+        m_py = py + ("from pkg.a_impl import " + ", ".join(shared) + "\n" if shared else "")
+        m_pyi = "from pkg.a_impl import " + ", ".join(names) + "\n"
+        case = {"a_impl.py": impl_src, "m.py": m_py, "m.pyi": m_pyi, "stream": "stubs-import-loaded-objects"}
+        write(d / "in" / "m.py", m_py)
+        write(d / "in" / "m.pyi", m_pyi)
+        t_mpy, t_mpyi = abstract(visit_file(d / "in" / "m.py")), abstract(visit_file(d / "in" / "m.pyi"))
+        expected = norm_result(spec_scope(t_mpyi, t_mpy))
+        ctx.case(case, bool(local & set(names)) or bool(shared))
+        ctx.observe("stream", "stubs-import-loaded-objects")
+        ctx.observe("stub_import(runtime side)", "local+imported" if (local & set(names)) and shared else "local" if local & set(names) else
+                    "imported" if shared else "absent")
+        # model: runtime aliases to loaded targets carry the target's value
+        impl_by = dict((n, t) for n, t in t_impl[MEM])
+        t_model = list(t_mpy)
+        t_model[MEM] = [[n, (["alias_to", t[1], t[2], impl_by[n]] if t[0] == "alias" and n in shared else t)] for n, t in t_mpy[MEM]]
+        model_r = ctx.model([["set_member", [False, t_model], [True, t_mpyi]], ["set_member", [True, t_mpyi], [False, t_model]]]) if use_model else None
+
+        def judge(label, mod, impl_mod, skip=()):
+            got = abstract(mod)
+            got[MEM] = [[n, t] for n, t in got[MEM] if n not in skip]
+            got = norm_result(got)
+            if mod.filepath.suffix == ".pyi":
+                ctx.property_failure({**case, "placement": label}, {"result_is": "the stubs module", "expected": "the runtime module"})
+                return None
+            diffs = tree_diff(got, expected)
+            if diffs:
+                ctx.property_failure({**case, "placement": label},
+                                     {"merged_an_object_the_stubs_only_import_or_lost_something": [list(map(str, x)) for x in diffs[:10]],
+                                      "merged": got, "expected": expected})
+            res = all_unresolved(mod, skip)
+            if res:
+                ctx.property_failure({**case, "placement": label}, {"aliases_resolved_by_merging": res[:10]})
+            after = norm_result(abstract(impl_mod))
+            if after != norm_result(t_impl):
+                ctx.property_failure({**case, "placement": label},
+                                     {"imported_module_modified": [list(map(str, x)) for x in tree_diff(after, norm_result(t_impl))[:10]]})
+            return got
+
+        for k, order in enumerate((["__init__.py", "a_impl.py", "m.py", "m.pyi"], ["__init__.py", "a_impl.py", "m.pyi", "m.py"])):
+            shutil.rmtree(d / "P", ignore_errors=True)
+            write(d / "P" / "pkg" / "__init__.py", "")
+            write(d / "P" / "pkg" / "a_impl.py", impl_src)
+            write(d / "P" / "pkg" / "m.py", m_py)
+            write(d / "P" / "pkg" / "m.pyi", m_pyi)
+            label = f"inpkg({order[2]} first)"
+            try:
+                with walk_listed(order):
+                    pkg = griffe.load("pkg", search_paths=[str(d / "P")], allow_inspection=False)
+                got = judge(label, pkg.members["m"], pkg.members["a_impl"])
+            except Exception as e:  # noqa: BLE001
+                ctx.property_failure({**case, "placement": label}, {"raised": type(e).__name__, "expected": "no exception"})
+                continue
+            if got is not None and model_r is not None:
+                mo = norm_model(model_r[k])
+                # the model's AlTo members are plain aliases in the live abstraction: compare them as aliases
+                if mo[0] == "ok":
+                    t = mo[1][1]
+                    t[MEM] = [[n, (["alias", x[1], x[2]] if x[0] == "alias_to" else x)] for n, x in t[MEM]]
+                if mo != ["ok", [False, got]]:
+                    ctx.tie_failure("correspondence", f"model vs griffe [stubs-import-loaded-objects, {label}]",
+                                    {"model": str(mo)[:600], "impl": str(got)[:600]}, case)
+        # the package's own __init__ pair: stubs inside the package / in pkg-stubs
+        stubs_pkg = idx % 2 == 1
+        write(d / "T" / "site" / "pkg" / "__init__.py", m_py)
+        write(d / "T" / "site" / "pkg" / "a_impl.py", impl_src)
+        if stubs_pkg:
+            write(d / "T" / "stubs" / "pkg-stubs" / "__init__.pyi", m_pyi)
+            paths = [str(d / "T" / "stubs"), str(d / "T" / "site")]
+        else:
+            write(d / "T" / "site" / "pkg" / "__init__.pyi", m_pyi)
+            paths = [str(d / "T" / "site")]
+        label = "package __init__ + " + ("pkg-stubs" if stubs_pkg else "__init__.pyi")
+        try:
+            top = griffe.load("pkg", search_paths=paths, allow_inspection=False, find_stubs_package=True, try_relative_path=False)
+            judge(label, top, top.members["a_impl"], skip=("a_impl",))
+            ctx.observe("outcome:stubs-import-loaded-objects", "ok")
+        except Exception as e:  # noqa: BLE001
+            ctx.property_failure({**case, "placement": label}, {"raised": type(e).__name__, "expected": "no exception"})
+    finally:
+        shutil.rmtree(d, ignore_errors=True)
+
+
+# ----------------------------------------------------------------------------------------------------------------------
+# public facade over a private sibling package: pkg/__init__.py = `from _pkg import *`, stubs for pkg.
+# Authorities: CPython importing pkg in a subprocess (runtime names, docstrings), CPython's ast on the .pyi (types).
+# Checked after load and again after resolve_aliases(implicit=True).
+# ----------------------------------------------------------------------------------------------------------------------
+EXT_STUB = "def __getattr__(name):\n    return object()\n"
+RUNTIME_PROBE = """
+import inspect, json, sys
+sys.path[:0] = [sys.argv[1], sys.argv[2]]
+import pkg
+out = {}
+for name in dir(pkg):
+    if name.startswith("_"):
+        continue
+    obj = getattr(pkg, name)
+    if inspect.isfunction(obj) and obj.__module__ == "_pkg" and obj.__name__ == name:
+        out[name] = ["function", inspect.getdoc(obj), list(inspect.signature(obj).parameters)]
+    elif inspect.isclass(obj) and obj.__module__ == "_pkg":
+        out[name] = ["class", inspect.getdoc(obj) if "__doc__" in vars(obj) and obj.__doc__ else None, []]
+    elif type(obj) in (int, float, str) or obj is Ellipsis:
+        out[name] = ["attribute", None, []]
+    else:
+        out[name] = ["other", None, []]
+print(json.dumps(out))
+"""
+
+
+def stub_declarations(src):
+    import ast
+    decl = {}
+    for node in ast.parse(src).body:
+        if isinstance(node, (ast.FunctionDef, ast.AsyncFunctionDef)):
+            ov = any(ast.unparse(x) == "overload" for x in node.decorator_list)
+            e = decl.setdefault(node.name, {"kind": "function", "overloads": 0, "impl": None})
+            if e["kind"] != "function":
+                continue
+            if ov:
+                e["overloads"] += 1
+            else:
+                a = node.args
+                params = {x.arg: (ast.unparse(x.annotation) if x.annotation else None)
+                          for x in a.posonlyargs + a.args + a.kwonlyargs + [y for y in (a.vararg, a.kwarg) if y]}
+                e["impl"] = {"returns": ast.unparse(node.returns) if node.returns else None, "parameters": params, "doc": ast.get_docstring(node)}
+        elif isinstance(node, ast.AnnAssign) and isinstance(node.target, ast.Name):
+            decl[node.target.id] = {"kind": "attribute", "annotation": ast.unparse(node.annotation)}
+        elif isinstance(node, ast.Assign) and len(node.targets) == 1 and isinstance(node.targets[0], ast.Name):
+            decl[node.targets[0].id] = {"kind": "attribute", "annotation": None}
+        elif isinstance(node, ast.ClassDef):
+            decl[node.name] = {"kind": "class", "doc": ast.get_docstring(node)}
+    return decl
+
+
+def run_facade_case(ctx, idx, py, pyi):
+    import subprocess
+    import sys
+    import griffe
+    d = ctx.scratch / f"fac{idx}"
+    try:
+        site, ext = d / "site", d / "ext"
+        write(site / "_pkg" / "__init__.py", py)
+        write(site / "pkg" / "__init__.py", '"""Public package."""\nfrom _pkg import *\n')
+        for f in ("extpkg/__init__.py", "extpkg/sub.py", "otherpkg/__init__.py", "otherpkg/deep/__init__.py", "otherpkg/deep/mod.py"):
+            write(ext / f, EXT_STUB)
+        stubs_pkg = idx % 2 == 1
+        if stubs_pkg:
+            write(d / "stubs" / "pkg-stubs" / "__init__.pyi", pyi)
+            paths = [str(d / "stubs"), str(site)]
+        else:
+            write(site / "pkg" / "__init__.pyi", pyi)
+            paths = [str(site)]
+        placement = "facade + " + ("pkg-stubs" if stubs_pkg else "__init__.pyi")
+        case = {"_pkg/__init__.py": py, "pkg/__init__.py": "from _pkg import *", "pkg stubs": pyi, "placement": placement, "stream": "wildcard-facade"}
+        proc = subprocess.run([sys.executable, "-c", RUNTIME_PROBE, str(site), str(ext)], capture_output=True, text=True,
+                              env={"PATH": os.environ.get("PATH", ""), "PYTHONDONTWRITEBYTECODE": "1"})
+        if proc.returncode != 0:
+            ctx.observe("facade_runtime", "not importable")
+            ctx.count("facade_not_importable")
+            return
+        at_runtime = json.loads(proc.stdout)
+        declared = stub_declarations(pyi)
+        ctx.case(case, bool(set(at_runtime) & set(declared)))
+        ctx.observe("stream", "wildcard-facade")
+        try:
+            loader = griffe.GriffeLoader(search_paths=paths, allow_inspection=False)
+            pkg = loader.load("pkg", try_relative_path=False, find_stubs_package=True)
+            stages = [("after load", facade_problems(pkg, at_runtime, declared))]
+            loader.resolve_aliases(implicit=True)
+            stages.append(("after resolve_aliases", facade_problems(pkg, at_runtime, declared)))
+        except Exception as e:  # noqa: BLE001
+            # F1 at the package's own scope: a pending overload group of the stubs names an alias that cannot resolve
+            ctx.observe("outcome:wildcard-facade", type(e).__name__)
+            t_rt = abstract(visit_file(site / "_pkg" / "__init__.py", "_pkg"))
+            dead = {n for n, t in t_rt[MEM] if t[0] == "alias"}
+            known = type(e).__name__ == "AliasResolutionError" and any(v.get("kind") == "function" and v["overloads"] and v["impl"] is None and n in dead
+                                                                       for n, v in declared.items())
+            ctx.property_failure(case, {"raised": type(e).__name__, "expected": "no exception"}, finding="C19-F1" if known else None)
+            return
+        ctx.observe("outcome:wildcard-facade", "ok")
+        for stage, probs in stages:
+            if probs:
+                ctx.property_failure({**case, "stage": stage}, {"against_cpython_and_the_pyi": probs[:10]})
+    finally:
+        shutil.rmtree(d, ignore_errors=True)
+
+
+def facade_problems(pkg, at_runtime, declared):
+    import griffe
+    probs = []
+    for name, (kind, doc, params) in at_runtime.items():
+        if kind == "other":
+            continue
+        if name not in pkg.members:
+            probs.append(f"pkg.{name} exists at runtime (CPython) but is missing from the merged module")
+            continue
+        member = pkg.members[name]
+        if not member.runtime:
+            probs.append(f"pkg.{name} exists at runtime (CPython) but is marked runtime=False")
+        spec = declared.get(name)
+        try:
+            if member.kind.value != kind:
+                probs.append(f"pkg.{name} is a {member.kind.value}, CPython says {kind}")
+                continue
+            same = spec is not None and spec["kind"] == kind
+            if kind in ("function", "class"):
+                got = member.docstring.value if member.docstring else None
+                stub_doc = ((spec.get("impl") or {}).get("doc") if kind == "function" else spec.get("doc")) if same else None
+                want = doc if doc is not None else stub_doc
+                if got != want:
+                    probs.append(f"pkg.{name} docstring is {got!r}, expected {want!r} (CPython: {doc!r}, stubs: {stub_doc!r})")
+            if not same:
+                continue
+            if kind == "function":
+                if spec["impl"] is not None:
+                    got = None if member.returns is None else str(member.returns)
+                    if got != spec["impl"]["returns"]:
+                        probs.append(f"pkg.{name} returns {got}, the stubs say {spec['impl']['returns']}")
+                    for p in params:
+                        if p in spec["impl"]["parameters"]:
+                            a = member.parameters[p].annotation
+                            if (None if a is None else str(a)) != spec["impl"]["parameters"][p]:
+                                probs.append(f"pkg.{name}({p}) is annotated {a}, the stubs say {spec['impl']['parameters'][p]}")
+                if spec["overloads"] and len(member.overloads or []) != spec["overloads"]:
+                    probs.append(f"pkg.{name} has {len(member.overloads or [])} overloads, the stubs declare {spec['overloads']}")
+            elif kind == "attribute":
+                a = member.annotation
+                if (None if a is None else str(a)) != spec["annotation"]:
+                    probs.append(f"pkg.{name} is annotated {a}, the stubs say {spec['annotation']}")
+        except (griffe.AliasResolutionError, griffe.CyclicAliasError) as e:
+            probs.append(f"pkg.{name} cannot be inspected ({type(e).__name__})")
+    for name, spec in declared.items():
+        if name in at_runtime:
+            continue
+        if spec["kind"] == "function" and spec["impl"] is None:
+            continue                      # overloads only: no member is created for them
+        if name not in pkg.members:
+            probs.append(f"pkg.{name} declared in the stubs is missing from the merged module")
+        elif pkg.members[name].runtime:
+            probs.append(f"stub-only pkg.{name} is not marked as unavailable at runtime")
+    return probs
+
+
+FACADE_CORPUS = [
+    ('"""Private implementation."""\nLIMIT = 10\ndef scale(value, factor=2):\n    """Runtime docstring of scale."""\n    return value * factor\n'
+     'class Box:\n    """Runtime docstring of Box."""\n    size = 0\n    def grow(self, amount):\n        """Runtime docstring of grow."""\n',
+     'LIMIT: int\ndef scale(value: float, factor: int = ...) -> float: ...\ndef only_in_stubs(flag: bool) -> None: ...\n'
+     'class Box:\n    size: int\n    def grow(self, amount: int) -> None: ...\n'),
+    ('from typing import overload\ndef g(x): ...\ndef h(x):\n    "R doc h"\nA = 1\n',
+     'from typing import overload\n@overload\ndef g(x: int) -> int: ...\n@overload\ndef g(x: str) -> str: ...\ndef h(x: int) -> str:\n    "S doc h"\nA: str\nB: int\n'),
+]
+
 XCHECK: list = []     # a few model queries of every kind, kept for the thorough tier's extraction cross-check
 
 
@@ -990,6 +1281,8 @@ def explore(ctx):
         r = run_case(ctx, idx, py, pyi, stream)
         if stream == "corpus" or idx % 3 == 0:
             run_resolvable_case(ctx, idx, py, pyi)
+        if stream == "corpus" or idx % 3 == 1:
+            run_stub_import_case(ctx, idx, py, pyi)
         idx += 1
         if r is not None:
             batch.append(r)
@@ -998,6 +1291,11 @@ def explore(ctx):
             batch = []
     if batch:
         compare_with_model(ctx, batch)
+    for k, (py, pyi) in enumerate(FACADE_CORPUS):
+        run_facade_case(ctx, k, py, pyi)
+    for k in range(ctx.budget(70, 900)):
+        py, pyi = gen_pair(ctx.rng, anns=SAFE_ANNS)
+        run_facade_case(ctx, len(FACADE_CORPUS) + k, py, pyi)
     if not ctx.quick:
         # extraction check: the same queries evaluated inside Coq (vm_compute) and by the extracted OCaml driver
         ctx.cross_check_extraction(XCHECK, n=24)
@@ -1016,6 +1314,10 @@ def search(ctx):
         run_case(ctx, idx, py, pyi, "search-random", use_model=False)
         if idx % 3 == 0:
             run_resolvable_case(ctx, idx, py, pyi, use_model=False)
+        if idx % 3 == 1:
+            run_stub_import_case(ctx, idx, py, pyi, use_model=False)
+        if idx % 3 == 2:
+            run_facade_case(ctx, idx, *gen_pair(ctx.rng, anns=SAFE_ANNS))
         idx += 1
         if ctx.prop_failures:
             return
@@ -1023,6 +1325,30 @@ def search(ctx):
 
 def replay(ctx, data):
     case = data.get("failing_input") or {}
+    if case.get("stream") == "wildcard-facade":
+        print("---- _pkg/__init__.py\n" + case["_pkg/__init__.py"] + "---- pkg/__init__.py\nfrom _pkg import *\n---- stubs for pkg (" + case["placement"] + ")\n" + case["pkg stubs"])
+        ctx.scratch.mkdir(parents=True, exist_ok=True)
+        try:
+            run_facade_case(ctx, 1 if "pkg-stubs" in case["placement"] else 0, case["_pkg/__init__.py"], case["pkg stubs"])
+            for f in ctx.prop_failures:
+                print("PROPERTY FAILURE:", json.dumps(f["detail"], default=str)[:1500], "classified:", f["classified_as"])
+        finally:
+            shutil.rmtree(ctx.scratch, ignore_errors=True)
+        return 0
+    if case.get("stream") == "stubs-import-loaded-objects":
+        print("---- pkg/a_impl.py\n" + case["a_impl.py"] + "---- pkg/m.py\n" + case["m.py"] + "---- pkg/m.pyi\n" + case["m.pyi"])
+        ctx.scratch.mkdir(parents=True, exist_ok=True)
+        try:
+            py = case["m.py"]
+            py = py[:py.rindex("from pkg.a_impl import")] if "from pkg.a_impl import" in py else py
+            run_stub_import_case(ctx, 0, py, case["a_impl.py"], use_model=ctx.driver is not None)
+            for f in ctx.prop_failures:
+                print("PROPERTY FAILURE:", json.dumps(f["detail"], default=str)[:1500], "classified:", f["classified_as"])
+            for t in ctx.tie_failures:
+                print("MODEL DISAGREES:", t["name"], json.dumps(t["detail"], default=str)[:1500])
+        finally:
+            shutil.rmtree(ctx.scratch, ignore_errors=True)
+        return 0
     if "a_impl.py" in case:
         print("---- pkg/a_impl.py\n" + case["a_impl.py"] + "---- pkg/m.py\n" + case["m.py"] + "---- pkg/m.pyi\n" + case["m.pyi"])
         ctx.scratch.mkdir(parents=True, exist_ok=True)
